@@ -326,10 +326,13 @@ type Pool struct {
 
 func (p *Pool) Get() any {
 	if vrt.Cur() == nil {
-		if p.real.New == nil && p.New != nil {
-			p.real.New = p.New
+		if x := p.real.Get(); x != nil {
+			return x
 		}
-		return p.real.Get()
+		if p.New != nil {
+			return p.New()
+		}
+		return nil
 	}
 	if p.New == nil {
 		return nil
